@@ -110,6 +110,9 @@ CONSTANTS Server,            \* 1..N, N >= 2
           W_AppendAlwaysTruncates,  \* log.go maybeAppend: truncate+append even without conflict
           W_HeartbeatCommitUnbounded, \* raft.go sendHeartbeat: commit not capped by Match
           W_QuorumMinusOne,         \* quorum/majority.go: q = n/2 instead of n/2+1
+          W_KeepMatchOnReset,       \* raft.go reset 618-633: the Progress of every peer is recycled with its Match kept (instead of
+                                    \* a fresh Progress with Match = 0): what a node learned as leader of an earlier term survives
+                                    \* its stepping down and counts again when it is re-elected
           PreVote,                  \* raft.Config.PreVote (BOOLEAN): two-phase election; FALSE = exactly the module without it
           W_PreVoteRespCountsAsVote,\* raft.go stepCandidate 1394-1399/1413: the per-state filter `case myVoteRespType` removed, i.e.
                                     \* a (pre-)candidate tallies MsgVoteResp and MsgPreVoteResp alike
@@ -326,7 +329,9 @@ Update(i, r, t, v, ld, lg, c, vts, P, wrote, V, pc) ==
     \* commit index as it was; what its own acknowledgement in advance() commits (a quorum of one) is a later, commit-only write
     /\ sc' = [sc EXCEPT ![i] = IF wrote \/ t # term[i] \/ v # vote[i] THEN (IF r = "L" THEN commit[i] ELSE c) ELSE @]
     /\ votes' = [votes EXCEPT ![i] = vts]
-    /\ pr' = [pr EXCEPT ![i] = IF r = "L" THEN P ELSE NoPr]
+    /\ pr' = [pr EXCEPT ![i] = IF r = "L" THEN P
+                               ELSE IF W_KeepMatchOnReset /\ r # "D" THEN [j \in Server |-> [NoPrE EXCEPT !.match = pr[i][j].match]]
+                               ELSE NoPr]
     /\ cfg' = [cfg EXCEPT ![i] = V]
     /\ pci' = [pci EXCEPT ![i] = IF r = "L" THEN pc ELSE 0]
     /\ gc' = IF c > Len(gc) THEN SubSeq(lg, 1, c) ELSE gc
@@ -372,7 +377,7 @@ VoteReqs(i, ty, t) ==
 LeaderStart(i, t, lg0, cmt) ==
     LET lg == Append(lg0, [t |-> t, p |-> 0, c |-> 0])
         P0 == [j \in Server |-> IF j \notin cfg[i] THEN NoPrE
-                                ELSE [match |-> IF j = i THEN Len(lg0) ELSE 0, next |-> Len(lg0) + 1,
+                                ELSE [match |-> IF j = i THEN Len(lg0) ELSE IF W_KeepMatchOnReset THEN pr[i][j].match ELSE 0, next |-> Len(lg0) + 1,
                                       state |-> IF j = i THEN Replicate ELSE Probe, probesent |-> FALSE]]
         b == Bcast(i, lg, cmt, t, P0, cfg[i])
         a == AckOK(i, i, Len(lg), lg, cmt, t, b.P, cfg[i])
